@@ -93,14 +93,14 @@ class ActionTextGenWalker(Walker):
         if self._lvl:
             self.buf_linebreak()
         
-        first_filter = lambda sel: (not one(sel).ACT_SMT[661, 'precedes']() and
+        first_filter = lambda sel: (not one(sel).ACT_SMT[661, 'succeeds']() and
                                     not one(sel).ACT_EL[603]() and
                                     not one(sel).ACT_E[603]())
         
         act_smt = one(inst).ACT_SMT[602](first_filter)
         while act_smt:
             self.accept(act_smt)
-            act_smt = one(act_smt).ACT_SMT[661, 'succeeds']()
+            act_smt = one(act_smt).ACT_SMT[661, 'precedes']()
             
         self._lvl -= 1
         self.buf_linebreak()
